@@ -173,9 +173,16 @@ Lemma field_rel_refl f : field_rel f f.
 Proof. split; [apply item_rel_refl|]. destruct f; try exact I; apply item_rel_refl. Qed.
 
 Lemma enum_core_ext name nm pfx opts extra :
-  opts <> [] -> enum_ext (cv_enum name (mkEnum nm pfx opts)) (cv_enum name (mkEnum nm pfx (opts ++ extra))).
+  enum_append_ok opts extra -> enum_ext (cv_enum name (mkEnum nm pfx opts)) (cv_enum name (mkEnum nm pfx (opts ++ extra))).
 Proof.
-  intros Hne. destruct opts as [|o0 r]; [contradiction|].
+  intros Hok. destruct opts as [|o0 r].
+  { (* an enum without options: the implicit zero value stays when the first new option does
+       not end in UNSPECIFIED *)
+    destruct Hok as [Hne|Hx]; [contradiction Hne; reflexivity|].
+    destruct extra as [|o r]; [split; [reflexivity|exists []; rewrite app_nil_r; reflexivity]|].
+    unfold J5sConvert.cv_enum. cbn [e_opts e_prefix app].
+    change (has_suffix unspecified o = false) in Hx. rewrite Hx.
+    split; cbn [en_name en_vals]; [reflexivity|]. eexists. cbn [app]. reflexivity. }
   unfold J5sConvert.cv_enum. cbn [e_opts e_prefix app].
   destruct (has_suffix unspecified o0); split; cbn [en_name en_vals]; try reflexivity.
   - rewrite (number_opts_app snake camel screaming). eexists. rewrite app_comm_cons. reflexivity.
@@ -261,14 +268,47 @@ Proof. induction ps as [|p r IH]; cbn; [constructor|]. destruct p. constructor; 
 
 (* enum options appended *)
 Lemma cv_enum_ext name nm pfx opts extra :
-  opts <> [] -> enum_ext (cv_enum name (mkEnum nm pfx opts)) (cv_enum name (mkEnum nm pfx (opts ++ extra))).
+  enum_append_ok opts extra -> enum_ext (cv_enum name (mkEnum nm pfx opts)) (cv_enum name (mkEnum nm pfx (opts ++ extra))).
 Proof.
-  intros Hne. destruct opts as [|o0 r]; [contradiction|].
+  intros Hok. destruct opts as [|o0 r].
+  { (* an enum without options: the implicit zero value stays when the first new option does
+       not end in UNSPECIFIED *)
+    destruct Hok as [Hne|Hx]; [contradiction Hne; reflexivity|].
+    destruct extra as [|o r]; [split; [reflexivity|exists []; rewrite app_nil_r; reflexivity]|].
+    unfold J5sConvert.cv_enum. cbn [e_opts e_prefix app].
+    change (has_suffix unspecified o = false) in Hx. rewrite Hx.
+    split; cbn [en_name en_vals]; [reflexivity|]. eexists. cbn [app]. reflexivity. }
   unfold J5sConvert.cv_enum. cbn [e_opts e_prefix app].
   destruct (has_suffix unspecified o0); split; cbn [en_name en_vals]; try reflexivity.
   - rewrite (number_opts_app snake camel screaming). eexists. rewrite app_comm_cons. reflexivity.
   - change (o0 :: r ++ extra) with ((o0 :: r) ++ extra). rewrite (number_opts_app snake camel screaming).
     eexists. rewrite app_comm_cons. reflexivity.
+Qed.
+
+(* ... and exactly then: appending ONE option keeps every earlier value (name, number) if and
+   only if the enum has options, or the option does not end in UNSPECIFIED, or it spells the
+   implicit zero value itself (`option UNSPECIFIED` / `option <PREFIX>UNSPECIFIED`).  The
+   complement - an enum without options + an option ending in UNSPECIFIED with a name of its
+   own - is the recorded finding; nothing else renames or renumbers an enum value. *)
+Theorem cv_enum_snoc_exact name nm pfx opts o :
+  enum_ext (cv_enum name (mkEnum nm pfx opts)) (cv_enum name (mkEnum nm pfx (opts ++ [o]))) <->
+  (opts <> [] \/ unspec o = false \/
+   value_name (enum_prefix screaming name pfx) o = enum_prefix screaming name pfx ++ unspecified).
+Proof.
+  split.
+  - intros [_ [t Ht]]. destruct opts as [|o0 r]; [|left; discriminate]. right.
+    destruct (unspec o) eqn:E; [right|left; reflexivity].
+    unfold J5sConvert.cv_enum in Ht. cbn [e_opts e_prefix app en_vals] in Ht.
+    change (has_suffix unspecified o) with (unspec o) in Ht. rewrite E in Ht.
+    cbn [app] in Ht. inversion Ht. reflexivity.
+  - intros [H|[H|H]].
+    + apply cv_enum_ext. left. exact H.
+    + apply cv_enum_ext. right. exact H.
+    + destruct opts as [|o0 r]; [|apply cv_enum_ext; left; discriminate].
+      unfold J5sConvert.cv_enum. cbn [e_opts e_prefix app].
+      destruct (has_suffix unspecified o); split; cbn [en_name en_vals]; try reflexivity.
+      * rewrite H. exists []. reflexivity.
+      * eexists. cbn [app]. reflexivity.
 Qed.
 
 (* declared objects / oneofs / enums with their nested declarations *)
@@ -646,6 +686,16 @@ Proof. induction ps as [|p r IH]; cbn; [reflexivity|]. rewrite IH. reflexivity. 
 Lemma papp_assoc x y z : papp (papp x y) z = papp x (papp y z).
 Proof. induction x as [|p r IH]; cbn; [reflexivity|]. rewrite IH. reflexivity. Qed.
 
+Lemma enum_append_ok_trans opts x y :
+  enum_append_ok opts x -> enum_append_ok (opts ++ x) y -> enum_append_ok opts (x ++ y).
+Proof.
+  intros [H|H] H'; [left; exact H|]. destruct opts as [|o r]; [|left; discriminate].
+  right. destruct x as [|a t]; [|exact H]. cbn [app] in *.
+  destruct H' as [H'|H']; [contradiction H'; reflexivity|exact H'].
+Qed.
+Lemma enum_append_ok_nil opts : enum_append_ok opts [].
+Proof. right. exact I. Qed.
+
 Theorem props_ext_trans :
   (forall a c, field_ext a c -> forall d, field_ext c d -> field_ext a d) /\
   (forall a c, props_ext a c -> forall d, props_ext c d -> props_ext a d).
@@ -656,7 +706,7 @@ Proof.
   - intros nm ps ps' Hps IH d H. inversion H; subst; [constructor; exact Hps|constructor; apply IH; assumption].
   - intros nm pfx opts extra Hne d H. inversion H as [| | |nm' pfx' opts' extra' Hne' E1 E2| |]; subst.
     + constructor. exact Hne.
-    + rewrite <- app_assoc. constructor. exact Hne.
+    + rewrite <- app_assoc. constructor. apply enum_append_ok_trans; assumption.
   - intros it it' Hit IH d H. inversion H; subst; [constructor; exact Hit|constructor; apply IH; assumption].
   - intros it it' Hit IH d H. inversion H; subst; [constructor; exact Hit|constructor; apply IH; assumption].
   - intros extra d _. constructor.
@@ -677,7 +727,7 @@ Proof.
     + constructor; [eapply (proj2 props_ext_trans); eassumption|apply IH; assumption].
   - intros nm pfx opts extra Hne d H. inversion H as [| | |nm' pfx' opts' extra' Hne' E1 E2]; subst.
     + constructor. exact Hne.
-    + rewrite <- app_assoc. constructor. exact Hne.
+    + rewrite <- app_assoc. constructor. apply enum_append_ok_trans; assumption.
   - intros extra d _. constructor.
   - intros n n' r r' Hn IHn Hr IHr d H. inversion H; subst. constructor; [apply IHn; assumption|apply IHr; assumption].
 Qed.
@@ -747,7 +797,7 @@ Proof.
   - exact H'.
   - inversion H' as [| |en' E1 E2|nm' pfx' opts' y Hne' E1 E2| |]; subst.
     + constructor. exact Hne.
-    + rewrite <- app_assoc. constructor. exact Hne.
+    + rewrite <- app_assoc. constructor. apply enum_append_ok_trans; assumption.
   - inversion H'; subst. constructor. eapply forall2_trans; [exact method_ext_trans| |]; eassumption.
   - inversion H'; subst. constructor. eapply topic_ext_trans; eassumption.
 Qed.
@@ -774,13 +824,13 @@ Proof.
   apply forall2_refl. exact Hr.
 Qed.
 
-(* an option may only be appended to an enum that already has options: otherwise the new
-   option could take the place of the implicit zero value *)
+(* an option may be appended to an enum that has options, and to an enum without options unless
+   it ends in UNSPECIFIED: that one would take the place of the implicit zero value *)
 Definition edit_ok (e : edit) (f : jfile) : Prop :=
   match e with
-  | EAppendOption _ k _ =>
+  | EAppendOption _ k o =>
       match nth_error (jf_elements f) k with
-      | Some (EEnum en) => e_opts en <> []
+      | Some (EEnum en) => enum_append_ok (e_opts en) [o]
       | _ => True
       end
   | _ => True
@@ -789,7 +839,10 @@ Definition edit_ok (e : edit) (f : jfile) : Prop :=
 Lemma enum_snoc_ext e o : field_ext (FEnumInline e) (FEnumInline (enum_snoc e o)) /\ nested_ext (NEnum e) (NEnum (enum_snoc e o)).
 Proof.
   destruct e as [nm pfx opts]. unfold enum_snoc. cbn [e_opts e_name e_prefix].
-  destruct opts as [|o0 r]; [split; constructor|]. split; constructor; discriminate.
+  destruct opts as [|o0 r].
+  - destruct (unspec o) eqn:E; [split; constructor|].
+    change [o] with ([] ++ [o]). split; constructor; right; exact E.
+  - split; constructor; left; discriminate.
 Qed.
 
 Lemma in_field_ext onmsg onenum :
@@ -847,7 +900,7 @@ Lemma apply_props_ext a path ps : props_ext ps (apply_props path a ps).
 Proof. apply apply_at_ext. Qed.
 
 Lemma edit_element_ext e el :
-  (match e, el with EAppendOption _ _ _, EEnum en => e_opts en <> [] | _, _ => True end) ->
+  (match e, el with EAppendOption _ _ o, EEnum en => enum_append_ok (e_opts en) [o] | _, _ => True end) ->
   element_ext el (edit_element e el).
 Proof.
   intros Hok. destruct e as [fi k p|fi k o|fi d|fi k mi p|fi k mi p|fi k mi p|fi k rt path act].
@@ -888,7 +941,7 @@ Qed.
 
 Lemma update_edit_ext e l : forall k,
   (match e with
-   | EAppendOption _ _ _ => match nth_error l k with Some (EEnum en) => e_opts en <> [] | _ => True end
+   | EAppendOption _ _ o => match nth_error l k with Some (EEnum en) => enum_append_ok (e_opts en) [o] | _ => True end
    | _ => True
    end) ->
   Forall2 element_ext l (update_nth k (edit_element e) l).
